@@ -263,6 +263,12 @@ class CTransitionTableModel(CStateMachineModel):
                     self.transitionsperstate[tableline[self.START_STATE]][tableline[self.EVENT]] = []
                 self.transitionsperstate[tableline[self.START_STATE]][tableline[self.EVENT]].append(transition)
 
+        # States that are only ever a target have no transitions of their own, but they are entered:
+        # per-state-transition blocks (state classes, process functions) must exist for them too.
+        for state in self.states:
+            if not state in self.transitionsperstate:
+                self.transitionsperstate[state] = OrderedDict()
+
     def getfirststate(self):
         if not self.transition_table:
             return "NO TT PRESENT!"
@@ -638,6 +644,13 @@ class CStateMachineGenerator(CGenerator):
                 tt_out += '\n'
                 output.append(tt_out)
                 tt_out = ""
+        # States that are only ever a target are entered and left too: wire their hooks as well.
+        if sml_entry_exit:
+            for state in smmodel.states:
+                if not (state in startStateHasEntryExit):
+                    startStateHasEntryExit[state] = True
+                    output.append(whitespace + ", state<" + state + "> + boost::sml::on_entry<_> / " + camel_case_small(state) + 'OnEntry\n')
+                    output.append(whitespace + ", state<" + state + "> + boost::sml::on_exit<_> / " + camel_case_small(state) + 'OnExit\n')
 
     def filterInitialState(self, all_lines, smmodel):
         output = []
